@@ -197,6 +197,25 @@ Proof.
   intros _ ->. apply Hn. left. reflexivity.
 Qed.
 
+Lemma drop_hm_nodup t sl : NoDup (map fst (hashmap t)) -> NoDup (map fst (hashmap (drop t sl))).
+Proof. unfold drop_slot. destruct (item_at t sl); scbn; [apply NoDup_map_filter | auto]. Qed.
+
+Lemma drop_hm_keep t sl h x : NoDup (map fst (hashmap t)) -> alookup tx_eqb h (hashmap t) = Some x -> x <> sl ->
+  alookup tx_eqb h (hashmap (drop t sl)) = Some x.
+Proof.
+  intros Hnd E Hne. rewrite (drop_hashmap t sl h Hnd), E. destruct (slotP x sl); [contradiction | reflexivity].
+Qed.
+
+Lemma fold_drop_hm_nodup gone : forall t, NoDup (map fst (hashmap t)) -> NoDup (map fst (hashmap (fold_left drop gone t))).
+Proof. induction gone as [|y r IH]; intros t H; cbn [fold_left]; [auto|]. apply IH, drop_hm_nodup, H. Qed.
+
+Lemma fold_drop_hm_keep gone : forall t h x, NoDup (map fst (hashmap t)) -> alookup tx_eqb h (hashmap t) = Some x -> ~ In x gone ->
+  alookup tx_eqb h (hashmap (fold_left drop gone t)) = Some x.
+Proof.
+  induction gone as [|y r IH]; intros t h x Hnd E Hn; cbn [fold_left]; [exact E|].
+  apply IH; [apply drop_hm_nodup; exact Hnd | apply drop_hm_keep; auto; intros ->; apply Hn; left; reflexivity | intro; apply Hn; right; assumption].
+Qed.
+
 (** one forwarded account *)
 Section ForwardFx.
   Variables (a : N) (t : state).
@@ -262,6 +281,15 @@ Section ForwardFx.
     intro Hn. destruct fwd_same as [_ [_ [_ [H4 _]]]]. rewrite H4. apply fold_drop_arrival.
     intro Hg. apply gone_in in Hg. contradiction.
   Qed.
+  Lemma fwd_hm_nodup : NoDup (map fst (hashmap t)) -> NoDup (map fst (hashmap t')).
+  Proof. destruct fwd_same as [_ [H2 _]]. rewrite H2. apply fold_drop_hm_nodup. Qed.
+
+  Lemma fwd_hm_keep h x : NoDup (map fst (hashmap t)) -> alookup tx_eqb h (hashmap t) = Some x ->
+    ~ (fst x = a /\ snd x < c) -> alookup tx_eqb h (hashmap t') = Some x.
+  Proof.
+    intros Hnd E Hn. destruct fwd_same as [_ [H2 _]]. rewrite H2. apply fold_drop_hm_keep; auto.
+    intro Hg. apply gone_in in Hg. contradiction.
+  Qed.
 End ForwardFx.
 
 Lemma fold_fwd_fx D : forall t,
@@ -289,6 +317,36 @@ Proof.
     + intros h H. eapply fwd_keys. apply H7. exact H.
     + intro H. apply H8. apply fwd_arr_nd. exact H.
     + intros x Hge. rewrite H9 by (rewrite Hc; exact Hge). apply fwd_arrival. intros [E Hlt]; rewrite E in Hge; lia.
+Qed.
+
+Lemma fold_fwd_hm D : forall t, NoDup (map fst (hashmap t)) ->
+  NoDup (map fst (hashmap (fold_left (forward_acct cfg_fixed) D t))) /\
+  forall h x, alookup tx_eqb h (hashmap t) = Some x -> get_cn t (fst x) <= snd x ->
+    alookup tx_eqb h (hashmap (fold_left (forward_acct cfg_fixed) D t)) = Some x.
+Proof.
+  induction D as [|a r IH]; intros t Hnd; cbn [fold_left]; [split; auto|].
+  destruct (IH (forward_acct cfg_fixed t a) (fwd_hm_nodup a t Hnd)) as [H1 H2]. split; [exact H1|].
+  intros h x E Hge. apply H2; [|rewrite fwd_cn; exact Hge].
+  apply fwd_hm_keep; auto. intros [Ea Hlt]. rewrite Ea in Hge. lia.
+Qed.
+
+Lemma c_step_gone s acc x h : alookup tx_eqb h (c_hm acc) = None -> alookup tx_eqb h (c_hm (c_step s acc x)) = None.
+Proof.
+  intro H. unfold c_step. destruct (alookup tx_eqb x (c_hm acc)); [|exact H]. cbn [c_hm].
+  rewrite (alookup_aremove tx_eqb tx_eqb_spec). destruct (tx_eqb h x); [reflexivity | exact H].
+Qed.
+
+Lemma c_step_self s acc h : alookup tx_eqb h (c_hm (c_step s acc h)) = None.
+Proof.
+  unfold c_step. destruct (alookup tx_eqb h (c_hm acc)) eqn:E; [|exact E]. cbn [c_hm].
+  rewrite (alookup_aremove tx_eqb tx_eqb_spec), (eqb_refl tx_eqb tx_eqb_spec). reflexivity.
+Qed.
+
+Lemma c_fold_gone s hs : forall acc h, In h hs \/ alookup tx_eqb h (c_hm acc) = None ->
+  alookup tx_eqb h (c_hm (fold_left (c_step s) hs acc)) = None.
+Proof.
+  induction hs as [|x r IH]; intros acc h H; cbn [fold_left]; [destruct H as [[]|H]; exact H|].
+  apply IH. destruct H as [[->|H]|H]; [right; apply c_step_self | left; exact H | right; apply c_step_gone; exact H].
 Qed.
 
 Section CommitFx.
@@ -387,5 +445,21 @@ Section CommitFx.
     intro Hge. destruct commit_same_s3 as [_ [_ [_ [H4 _]]]]. rewrite H4.
     destruct (fold_fwd_fx (c_dirty acc) s2) as [_ [_ [_ [_ [_ [_ [_ [_ H9]]]]]]]]. cbn zeta in *. fold s3 in H9.
     rewrite H9 by (rewrite s2_cn; exact Hge). reflexivity.
+  Qed.
+  (** a commit report naming a transaction the pool tracks moves the commit nonce past its nonce *)
+  Lemma commit_recognised h sl : In h hs -> alookup tx_eqb h (hashmap s) = Some sl -> snd sl < cn_after (fst sl).
+  Proof.
+    intros Hin E. destruct (CA_hm _ _ _ CA h sl E) as [H|[_ H]]; [|exact H].
+    fold acc in H. unfold acc in H. rewrite (c_fold_gone s hs _ h (or_introl Hin)) in H. discriminate.
+  Qed.
+
+  (** the record of a transaction whose slot stays at or above the commit nonce survives the commit *)
+  Lemma commit_key_keep h sl : alookup tx_eqb h (hashmap s) = Some sl -> cn_after (fst sl) <= snd sl ->
+    alookup tx_eqb h (hashmap s') = Some sl.
+  Proof.
+    intros E Hge. destruct commit_same_s3 as [_ [H2 _]]. rewrite H2.
+    destruct (fold_fwd_hm (c_dirty acc) s2 (CA_nodup _ _ _ CA)) as [_ Hk]. fold s3 in Hk.
+    apply Hk; [|rewrite s2_cn; exact Hge]. change (hashmap s2) with (c_hm acc).
+    destruct (CA_hm _ _ _ CA h sl E) as [H|[_ H]]; [exact H|]. fold acc in H. unfold cn_after in Hge. lia.
   Qed.
 End CommitFx.
